@@ -19,6 +19,17 @@ APPLY_OP_TO_UNIT = (
     "reciprocal",
 )
 
+# Positions and counts are pure numbers, whatever the unit of the data
+INDEX_RESULT = (
+    "argsort",
+    "argmax",
+    "argmin",
+    "nanargmax",
+    "nanargmin",
+    "argpartition",
+    "count_nonzero",
+)
+
 
 def _binary_op(op, lhs, rhs, strict=True, **kwargs):
     if not isinstance(rhs, lhs.__class__):
@@ -286,7 +297,7 @@ class Array(Base):
                     *self._extract_units(args),
                     **{key: a for key, a in kwargs.items() if key != "out"},
                 ).units
-            else:
+            elif func.__name__ not in INDEX_RESULT:
                 unit = self.unit
 
         if kwargs.get("out") is not None:
